@@ -1900,6 +1900,12 @@ void Token::printValueFlow(const std::vector<std::string>& files, bool xml, std:
                 outs += " bound=\"";
                 outs += ValueFlow::Value::toString(value.bound);
                 outs += "\"";
+#ifdef DANMAR_CPPCHECK_VERIF
+                // verification hook: expose the indirection level so that a fact about a pointee is not read as a fact about the pointer
+                outs += " indirect=\"";
+                outs += std::to_string(value.indirect);
+                outs += "\"";
+#endif
                 if (value.condition) {
                     outs += " condition-line=\"";
                     outs += std::to_string(value.condition->linenr());
